@@ -1374,6 +1374,11 @@ func (r *Reader) processParagraph(p paragraphXML) parsedParagraph {
 
 // extractRunText extracts text from a run element.
 func (r *Reader) extractRunText(run runXML) string {
+	return runText(run)
+}
+
+// runText returns the text of a run: text, symbols, tabs and breaks.
+func runText(run runXML) string {
 	// Runs decoded from XML carry their content in document order.
 	if run.pieces != nil {
 		return strings.Join(run.pieces, "")
